@@ -188,7 +188,7 @@ def _apply(p: FileDataPdu, s):
         p.segment_metadata = _meta(s)
 
 
-def _state(p: FileDataPdu) -> Dict[str, Any]:
+def _state(p: FileDataPdu, err=None) -> Dict[str, Any]:
     try:
         raw = pack_stable(p, "FileDataPdu.pack()")
         perr = None
@@ -199,7 +199,7 @@ def _state(p: FileDataPdu) -> Dict[str, Any]:
         if perr not in DOCUMENTED:
             raise
         raw = None
-    st = {"err": None, "packet_len": int(p.packet_len), "dlen": int(p.pdu_data_field_len),
+    st = {"err": err, "packet_len": int(p.packet_len), "dlen": int(p.pdu_data_field_len),
           "segmeta": int(p.pdu_header.segment_metadata_flag), "raw": None if raw is None else hx(raw),
           "pack_err": perr}
     if raw is not None:
@@ -226,6 +226,8 @@ def _fresh_check(p: FileDataPdu, conf_of):
 
 
 def _run_seq(p: FileDataPdu, steps, conf_of):
+    """after every setter call, accepted or refused, the observable state is reported; a refused call does not
+    end the sequence (the model proves it leaves the object unchanged, C07_step_refused)"""
     out = {"initial": _state(p), "steps": [], "final": None}
     for s in steps:
         try:
@@ -234,8 +236,8 @@ def _run_seq(p: FileDataPdu, steps, conf_of):
             cat = exc_category(e)
             if cat not in DOCUMENTED:
                 raise
-            out["steps"].append({"err": cat})
-            return out
+            out["steps"].append(_state(p, cat))
+            continue
         out["steps"].append(_state(p))
     _fresh_check(p, conf_of)
     out["final"] = _pdu_fields(p)
@@ -397,13 +399,13 @@ def rand_args(rng: random.Random, conf=None, dl: Optional[int] = None, ml: Optio
     return a
 
 
-def rand_steps(rng: random.Random, n: int, refuse: bool) -> List[Dict[str, Any]]:
+def rand_steps(rng: random.Random, n: int, refuse: bool, p_refuse: float = 0.08) -> List[Dict[str, Any]]:
     steps = []
     for _ in range(n):
         r = rng.random()
         if r < 0.5:
             dl = rng.choice(DATA_LENS + [rng.randint(0, 40)])
-            if refuse and rng.random() < 0.08:
+            if refuse and rng.random() < p_refuse:
                 dl = rng.choice([65536, 65530, 70000])
             steps.append({"set": "data", "data": hx(rbytes(rng, dl))})
         else:
@@ -431,7 +433,6 @@ class C07(Prop):
     assumptions = [
         "offsets are non-negative integers (negative ones are refused by struct.pack like too large ones; the statement's domain is the 32/64-bit range)",
         "record-continuation states are non-negative integers; members of RecordContinuationState (0..3) in the domain of the round trip",
-        "the state of an object after a refused setter call (the assignment has happened, the cached length is stale) is modelled (Pdu.step) but not compared: the statement is silent about it (C11)",
     ]
 
     def impl_ops(self):
@@ -691,6 +692,40 @@ class C07(Prop):
                 b = rand_args(rng)
                 yield Case({"op": "fd_useq", "raw": hx(spec_fd(b)), "suffix": hx(rbytes(rng, rng.choice([0, 0, 3]))),
                             "steps": steps}, "valid", tag="setter-sequence-after-unpack")
+        # --- refused setter calls: the object is unchanged (params, flag, lengths, octets) and the sequence goes on ---
+        for crc in (0, 1):
+            for large in (0, 1):
+                for ml0 in (None, 0, 7):
+                    a = rand_args(rng, rand_conf(rng, crc=crc, large=large), ml=ml0, p_none=1.0 if ml0 is None else 0.0)
+                    if ml0 is None:
+                        a.update(meta=None, state=None)
+                    room = 65535 - (8 if large else 4) - 2 * crc
+                    cur = 0 if ml0 is None else 1 + ml0
+                    a["data"] = hx(rbytes(rng, room - cur))       # exactly at the 16-bit limit
+                    grow = {"set": "meta", "meta": hx(rbytes(rng, 0 if ml0 is None else ml0 + 1)), "state": rng.randint(0, 3)}
+                    steps = [grow,                                                       # refused (flag must stay)
+                             {"set": "data", "data": hx(rbytes(rng, room - cur + 1))},    # refused
+                             {"set": "data", "data": hx(rbytes(rng, rng.randint(0, 9)))},  # accepted
+                             {"set": "meta", "meta": hx(rbytes(rng, 63)), "state": rng.randint(0, 3)},  # accepted
+                             {"set": "data", "data": hx(rbytes(rng, room - 63))},         # refused (one too long)
+                             {"set": "data", "data": hx(rbytes(rng, room - 64))},         # accepted, at the limit
+                             {"set": "meta", "meta": hx(rbytes(rng, 64)), "state": 0},    # refused
+                             {"set": "meta", "meta": None, "state": None},                # accepted
+                             {"set": "data", "data": hx(rbytes(rng, room + 1))},          # refused
+                             {"set": "data", "data": hx(rbytes(rng, room))}]              # accepted, at the limit
+                    yield Case({"op": "fd_seq", **a, "steps": steps}, "valid", tag="setter-refused-continues")
+                    yield Case({"op": "fd_seq", **a, "steps": [grow]}, "valid", tag="setter-refused-continues")
+                    b = dict(a)
+                    b["data"] = hx(rbytes(rng, 3))
+                    yield Case({"op": "fd_useq", "raw": hx(spec_fd(b)), "suffix": "",
+                                "steps": [{"set": "data", "data": hx(rbytes(rng, room - cur + 1))}, grow,
+                                          {"set": "data", "data": hx(rbytes(rng, room - cur))}, grow,
+                                          {"set": "data", "data": ""}, grow]},
+                               "valid", tag="setter-refused-continues")
+        for i in range(300 if thorough else 24):
+            a = rand_args(rng)
+            steps = rand_steps(rng, rng.randint(2, 12 if thorough else 6), refuse=True, p_refuse=0.4)
+            yield Case({"op": "fd_seq", **a, "steps": steps}, "valid", tag="setter-refused-continues")
         # single setter calls on every (CRC, large-file, metadata present/absent) state
         for crc in (0, 1):
             for large in (0, 1):
